@@ -386,7 +386,8 @@ def seed_registry(it, p, regs):
     if reg is None:
         raise Undecided("IndiMessage.register_message not found")
     saved = dict(it.opts)
-    it.opts["inline"] = lambda fi, node: fi is reg
+    # whatever the decorator computes from the class (e.g. its tag, for a tag -> class index) is part of registering it
+    it.opts["inline"] = lambda fi, node: fi is reg or fi.module.name.startswith("indi.message")
     n = len(it.events)
     try:
         for c in regs:
@@ -553,6 +554,8 @@ def rule_read(ctx):
 # the receive path is how a serialised message is parsed in practice: the scan must find it whatever text it carries
 # a message the codec produced must also survive the framing loop's 'is this a message?' test (C02.TRUTHY)
 IMPORTS = [('C20', 'C20.CTOR'), ('C02', 'C02.FIND'), ('C02', 'C02.DISCARD'), ('C02', 'C02.TRUTHY')]
+
+EXPLANATION = EXPLANATION + ' C03.WRITE additionally writes a text whose every character matters (runs of blanks, tab, newline, leading/trailing blank, markup characters) into every attribute and element text and requires it to reach the ElementTree element verbatim.'
 
 RULES = [
     ("C03.REG", rule_reg, "every emit-able message class is registered with the parser; tags unique; same tag function on both sides"),
